@@ -859,7 +859,11 @@ class Function(Ring):
         if Fout is not None and setitem is None and is_set(Fout.setitem):
             # re-evaluation of a recorded in-place write: save the contents
             # that are overwritten now (not those of the recording run)
-            Fout.setitem = (Fout.setitem[0], operator.getitem(args[0], Fout.setitem[0]).copy())
+            if numpy.isscalar(args[0]):
+                # (an immutable number, e.g. a 0-d accumulator re-evaluated with a python float)
+                Fout.setitem = (Fout.setitem[0], args[0])
+            else:
+                Fout.setitem = (Fout.setitem[0], operator.getitem(args[0], Fout.setitem[0]).copy())
         if (func is operator.setitem and Fout is not None and numpy.isscalar(args[0])
                 and len(args) == 3 and args[1] is Ellipsis and isinstance(Fargs[0], cls)):
             # `s op= v` recorded on a 0-d polynomial (s[...] = s op v) and re-evaluated with plain
